@@ -487,6 +487,32 @@ PROPS['C16'] = dict(
                  'leaks its 1-byte owned base-allocator object - outside the statement of C16 (see DESIGN.md section 5)'],
 )
 
+c17 = B('c17_threads', 'c17_threads.cpp', 'tsan')
+c17l = B('c17_threads_locked', 'c17_threads.cpp', 'tsan', defines=['-DSONIC_LOCKED_ALLOCATOR'])
+PROPS['C17'] = dict(
+    title='Independent documents and shared read-only documents are free of data races',
+    units=[
+        U(c17, 'prng', 500, 20000, wq=4, wt=6, label='c17-tsan', replay_reps=20, cap_s=dict(quick=45, thorough=900)),
+        U(c17, 'rc', 200, 5000, wq=2, wt=2, label='c17-tsan-rc', replay_reps=20, cap_s=dict(quick=45, thorough=900)),
+        U(c17l, 'prng', 300, 10000, wq=4, wt=6, label='c17-tsan-locked', replay_reps=20, cap_s=dict(quick=45, thorough=900)),
+    ],
+    rule='cases: thread scripts for 2..8 threads, generated on the main thread and then executed 4x behind a start barrier under '
+         'ThreadSanitizer. (A) every thread owns its documents: Parse of valid and mutated texts (pool and freeing allocator), '
+         'Serialize, CreateMap, lookups incl. a missing key, GetOnDemand, UpdateLazy, mutation-API build, RemoveMember, PopBack, '
+         'CopyFrom, ==; half of the cases give several threads the identical script. (B) one document built before the threads '
+         'start (with or without lookup maps, pool or freeing allocator) and then only const operations from all threads: type '
+         'tests, getters, iteration, FindMember (view and pointer+length), HasMember, operator[] with existing and MISSING keys, '
+         'AtPointer, Dump, Serialize into a thread-local buffer, == against a thread-local copy. (C, second binary built with '
+         '-DSONIC_LOCKED_ALLOCATOR) all threads Malloc/Realloc from one shared pool and parse on documents bound to it. Oracle: '
+         'ThreadSanitizer silent (halt_on_error); every thread result equals the single-threaded result of the same script; in '
+         '(C) all blocks 8-aligned, pairwise disjoint, patterns intact. evaluations counts thread executions as sub-evaluations.',
+    min_evaluations=dict(quick=2000, thorough=50000),
+    required_classes=['scenario:own-documents', 'scenario:shared-const-document', 'scenario:shared-locked-pool',
+                      'shared:operator[]-missing-key', 'shared:with-map'],
+    technique='generated multi-threaded scripts under ThreadSanitizer (happens-before race detection) with post-join differential against single-threaded results',
+    assumptions=['a race on a path no generated script executes is invisible; lock liveness and weak-memory effects beyond TSan are not addressed'],
+)
+
 
 def tool_versions():
     out = {}
